@@ -165,6 +165,14 @@ func prepare(r *mon.Run, gc GroupCase) *prepared {
 			r.Violation("C13:gpk-secret-mismatch"+suf, "group public key is not the public key of the sum of the dealers' constant terms", w)
 			return
 		}
+		// observation only (not part of C13): a member whose id is a multiple of the group
+		// order is dealt f(0), i.e. the group secret itself
+		for i := 0; i < n; i++ {
+			if res.SignSKs[i].GetBigInt().Cmp(sum) == 0 {
+				r.Count("observed_member_key_equals_group_secret", 1)
+				r.Note("group %s: member %d (id %s) holds the group secret as its signing key", gc.key(), i, res.IDs[i].GetHexString())
+			}
+		}
 		p.gpk = agg.Serialize()
 		p.ids = res.IDs
 		p.idHex = make([]string, n)
@@ -635,8 +643,8 @@ func main() {
 	}
 
 	d := setup()
-	fresh := r.Pick(3, 60)
-	other := r.Pick(1, 12)
+	fresh := r.Pick(3, 100)
+	other := r.Pick(1, 16)
 	nmsg := 3
 	orders := 3
 	var groups []GroupCase
